@@ -282,8 +282,11 @@ class FuncAnalysis:
             n_path_guards += added
             if status is not None:
                 break
+        residual = []
         for _ in range(n_path_guards):
-            self._guards.pop()
+            residual.append(self._guards.pop())
+        # the path guards a block that falls through leaves behind (from inner `if x: raise/return`)
+        self._last_residual = list(reversed(residual)) if status is None else []
         return status
 
     def _stmt(self, s):
@@ -505,13 +508,16 @@ class FuncAnalysis:
         cnt_pre = self._counters()
         self._guards.append((c, True, 'if'))
         st_a = self._block(s.body)
+        res_a = list(self._last_residual)
         self._guards.pop()
         env_a = self.env
         cnt_a = self._counters()
         self._restore_counters(cnt_pre)
         self.env = dict(pre)
         self._guards.append((c, False, 'if'))
+        self._last_residual = []
         st_b = self._block(s.orelse) if s.orelse else None
+        res_b = list(self._last_residual)
         self._guards.pop()
         env_b = self.env
         self._merge_counters(cnt_a)
@@ -522,12 +528,28 @@ class FuncAnalysis:
         if st_a is not None:
             self.env = env_b
             self._guards.append((c, False, st_a))
-            return None, 1
+            self._guards.extend(res_b)
+            return None, 1 + len(res_b)
         if st_b is not None:
             self.env = env_a
             self._guards.append((c, True, st_b))
-            return None, 1
+            self._guards.extend(res_a)
+            return None, 1 + len(res_a)
         self.env = self._merge(c, env_a, env_b)
+        if res_a or res_b:
+            # `if a: (if b: raise)` leaves the same path condition behind as `if a and b: raise`
+            def truth(gs):
+                return [(x if p else T.not_(x)) for x, p, _ in gs]
+            if not res_b:
+                g = T.nary('or', (T.not_(c), T.nary('and', tuple(truth(res_a))) if len(res_a) > 1 else truth(res_a)[0]))
+            elif not res_a:
+                g = T.nary('or', (c, T.nary('and', tuple(truth(res_b))) if len(res_b) > 1 else truth(res_b)[0]))
+            else:
+                g = T.nary('or', (T.nary('and', (c,) + tuple(truth(res_a))), T.nary('and', (T.not_(c),) + tuple(truth(res_b)))))
+            kinds = [k for _, _, k in res_a + res_b]
+            kind = 'raise' if all(k == 'raise' for k in kinds) else next(k for k in kinds if k != 'raise')
+            self._guards.append((g, True, kind))
+            return None, 1
         return None, 0
 
     # loops
@@ -543,7 +565,12 @@ class FuncAnalysis:
             base = f'W{self._n_while}'
         # two structurally equal loops in the two arms of a conditional are told apart by the
         # condition they run under (not by the order the arms are written in)
-        ifg = sorted(repr(c if p else T.not_(c)) for c, p, kind in self._guards if kind in ('if', 'return', 'raise'))
+        ifg = []
+        for c, p, gk in self._guards:
+            if gk in ('if', 'return'):
+                g = c if p else T.not_(c)
+                ifg.extend(g[1] if g[0] == 'and' else [g])
+        ifg = sorted({repr(g) for g in ifg})
         if ifg:
             import hashlib
             base = base + '~' + hashlib.md5(repr(ifg).encode()).hexdigest()[:3]
